@@ -300,4 +300,70 @@ example : ∃ s, Reach 5 s ∧ s.hpc = .returned ∧ s.lateOpen = true ∧ (s.co
         .act (.K 0) (.hookret .ok false), .act (.K 0) (.ev .hookdone [.opn 0 (some 0)]),
         .act .H .fin], rfl⟩, by decide⟩
 
+/-! ### cross-audit round 6: further non-vacuity witnesses (appended by the auditor, examples only) -/
+
+/-- the bound of `at_most_five_per_address` / `at_most_n_per_address` is attained with the size read from the source:
+    five upstream sockets to address 0 are open, a sixth attempt for the same address has passed server_connect -/
+def fiveOpen : List Label :=
+  [.act .H (.hook .cc),
+   .act .H (.hookret .ok false),
+   .act .H (.ev .start [.opn 0 (some 0), .opn 1 (some 0), .opn 2 (some 0), .opn 3 (some 0), .opn 4 (some 0), .opn 5 (some 0)]),
+   .act (.S 0) .start,
+   .act (.S 0) (.hook .sc),
+   .act (.S 0) (.hookret .ok false),
+   .act (.S 0) .semacq,
+   .act (.S 0) (.connret .ok),
+   .act (.S 1) .start,
+   .act (.S 1) (.hook .sc),
+   .act (.S 1) (.hookret .ok false),
+   .act (.S 1) .semacq,
+   .act (.S 1) (.connret .ok),
+   .act (.S 2) .start,
+   .act (.S 2) (.hook .sc),
+   .act (.S 2) (.hookret .ok false),
+   .act (.S 2) .semacq,
+   .act (.S 2) (.connret .ok),
+   .act (.S 3) .start,
+   .act (.S 3) (.hook .sc),
+   .act (.S 3) (.hookret .ok false),
+   .act (.S 3) .semacq,
+   .act (.S 3) (.connret .ok),
+   .act (.S 4) .start,
+   .act (.S 4) (.hook .sc),
+   .act (.S 4) (.hookret .ok false),
+   .act (.S 4) .semacq,
+   .act (.S 4) (.connret .ok),
+   .act (.S 5) .start,
+   .act (.S 5) (.hook .sc),
+   .act (.S 5) (.hookret .ok false)]
+
+example : ∃ s, Reach MitmVerif.Gen.C09.semSize s ∧ s.conns.countP (openAt 0) = 5 ∧ s.semv 0 = 0 ∧
+    s.conns.countP (holdsAt 0) = 5 ∧ s.conns.countP (wokenAt 0) = 0 :=
+  ⟨_, ⟨fiveOpen, rfl⟩, by decide⟩
+
+/-- ... and the sixth cannot take a slot: it has to queue (`waiters_are_tasks_of_the_address` on a non-empty queue) -/
+example : (run (init MitmVerif.Gen.C09.semSize) (fiveOpen ++ [.act (.S 5) .semacq])).isNone = true := by decide
+example : ∃ s, run (init MitmVerif.Gen.C09.semSize) (fiveOpen ++ [.act (.S 5) .semwait]) = some s ∧ s.waiters 0 = [5] ∧
+    s.conns.countP (openAt 0) = 5 := ⟨_, rfl, by decide⟩
+
+/-- `final_wait_covers_transports` / `final_wait_covers_early_transports`: their hypotheses hold in a reachable state with
+    an entry still in transports — handle_client is in its final wait, the open_connection task has not finished yet -/
+example : ∃ s, Reach 5 s ∧ s.hpc = .final ∧ s.lateOpen = false ∧ (s.conns.map (·.entry)) = [true] ∧
+    (s.conns.map (·.late)) = [false] ∧ s.hcount = 1 :=
+  ⟨_, ⟨[.act .H (.hook .cc), .act .H (.hookret .ok false), .act .H (.ev .start [.opn 0 (some 0)]),
+        .act .C .start, .act (.S 0) .start, .act (.S 0) (.hook .sc),
+        .act .C (.readret .eof), .act .C (.ev .closed []), .act .C .wclose, .act .C .fin, .cb .C, .cb .C,
+        .act .H (.hook .cd), .act .H (.hookret .ok false)], rfl⟩, by decide⟩
+
+/-- `connect_outcome_exactly_one` / `connected_then_disconnected_once` with the premise `entry = false` while the task is
+    NOT yet done (entry popped when server_disconnected fires, semaphore still held): the counters are already settled -/
+example : ∃ s, Reach 5 s ∧ (s.conns.map (fun c => (decide (c.pc = .done), c.entry, c.nSC, c.nSD, c.nSE, c.nSX))) =
+    [(false, false, 1, 1, 0, 1)] :=
+  ⟨_, ⟨happy.take 18, rfl⟩, by decide⟩
+
+/-- `client_hooks_paired` on the kill path (client_connected sets client.error): both hooks exactly once at return -/
+example : ∃ s, Reach 5 s ∧ s.hpc = .returned ∧ s.nCC = 1 ∧ s.nCD = 1 ∧ s.centry = false ∧ s.cwopen = false :=
+  ⟨_, ⟨[.act .H (.hook .cc), .act .H (.hookret .ok true), .act .H .wclose,
+        .act .H (.hook .cd), .act .H (.hookret .ok false), .act .H .fin], rfl⟩, by decide⟩
+
 end MitmVerif.Props.C09
